@@ -53,7 +53,7 @@ PROPS["C03"] = {
         Job("soyhtml", "H_escape", "6", tier="thorough", workers=16),
         Job("soyhtml", "H_decision", "0..3,0..3,0..8,1..11", tier="thorough", workers=16, note="all modes in all contexts"),
     ],
-    "bounds_quick": "the HTML escaper (through an autoescaped print rendered by the public API) on all strings of <= 5 bytes (256 values each); evalPrint escape decision for $x = any 2 non-NUL bytes under 4x4 namespace/template autoescape attributes x 9 directive chains (direct print) and 2x2 modes x 9 chains in let-content, param-content, msg-placeholder and cross-namespace call contexts; cross-namespace calls from a caller whose template / namespace is autoescape=false / true into a callee with each of the 4x4 namespace/template attributes x 4 chains (the callee's own mode decides), also within one namespace spread over two files with different declarations, in both orders of addition; a print after calls (also inside a content block) into templates of the opposite / an explicit mode; a print in a message rendered through an identity catalogue after a raw print of the same value (3x3 modes x 9 chains); non-string values",
+    "bounds_quick": "the HTML escaper (through an autoescaped print rendered by the public API) on all strings of <= 5 bytes (256 values each); evalPrint escape decision for $x = any 2 non-NUL bytes under 4x4 namespace/template autoescape attributes x 9 directive chains (direct print) and 2x2 modes x 9 chains in let-content, param-content, msg-placeholder and cross-namespace call contexts; cross-namespace calls from a caller whose template / namespace is autoescape=false / true into a callee with each of the 4x4 namespace/template attributes x 4 chains (the callee's own mode decides), also within one namespace spread over two files with different declarations, in both orders of addition; a print after calls (also inside a content block) into templates of the opposite / an explicit mode; a print in a message rendered through an identity catalogue after a raw print of the same value (3x3 modes x 9 chains); non-string values; the explicit escapeHtml directive on 0..5 symbolic bytes without NUL, with and without autoescaping",
     "bounds_thorough": "escaper <= 6 bytes; all 16 mode pairs in every context",
     "outside": "strings longer than the bound; user-registered directives; changeNewlineToBr is checked under C16 (its regexp replacement through a validated Go model of the pattern); contextual escaping beyond what soy implements",
     "assumptions": ["decodeEntities (harness) is the reference decoder of the five character references"],
@@ -231,7 +231,7 @@ PROPS["C08"] = {
         Job(".", "H_renderAfterJS", "0..1,false", workers=8, note="JS generation between renders"),
         Job(".", "H_renderAfterJS", "0..1,true", workers=8, note="JS generation between renders"),
     ],
-    "bounds": "3 two-file template sets covering print, let, if, foreach/ifempty, call with data=all / data=$m / value and content params, msg, css, switch, map and list literals, functions, $ij, and a render that fails half way; data: a symbolic 1-byte string, list of length 0 or 2, nested map; with and without an obligatory print directive; a first render, then optionally a render that fails inside a let-content / param-content / log block or a print, or a render into a writer that starts failing at a symbolically chosen write, then two more renders of the first template, all under frozen memory (one inductive step: no render writes what the next one reads; sync.Pool is modelled as a free list whose contents flow between renders); every later render must write the bytes of the first",
+    "bounds": "3 two-file template sets covering print, let, if, foreach/ifempty, call with data=all / data=$m / value and content params, msg, css, switch, map and list literals, functions, $ij, and a render that fails half way; data: a symbolic 1-byte string, list of length 0 or 2, nested map; with and without an obligatory print directive; a first render, then optionally a render that fails inside a let-content / param-content / log block or a print, or a render into a writer that starts failing at a symbolically chosen write, then two more renders of the first template, all under frozen memory (one inductive step: no render writes what the next one reads; sync.Pool is modelled as a free list whose contents flow between renders); every later render must write the bytes of the first; a render of a template binding only block-form lets at its top level, with the same data map, in between",
     "outside": "user directives/functions that themselves mutate their arguments; templates outside the dictionary; soyjs generation is checked under C09",
     "assumptions": ["frame argument: if no store executed during a render targets memory reachable from the compiled bundle, the data, the injected data or soy's package-level variables, the state seen by the next render is unchanged, for histories of any length"],
     "level_text": "Bounded symbolic model checking of a frame condition: the engine marks every heap cell reachable from the registry, caller data and soy's package-level variables read-only and reports any Store/MapUpdate/in-place append to them during two renders with symbolic data; byte-identical output of the two renders is asserted as well.",
@@ -380,7 +380,7 @@ PROPS["C14"] = {
         Job("soyjs", "H_jsStruct", "0..5,true", workers=4),
         Job("soyjs", "H_jsLiteral", "0..5,3,0", tier="thorough", workers=16),
     ],
-    "bounds_quick": "string emission at 6 sites (raw text, string literal, map literal key, css suffix, global string value, message text) with <= 2 symbolic ASCII bytes (all 128 values incl. quotes, backslash, controls, line terminators), and <= 1 byte combined with U+00E9, U+2028, U+2029, U+1F600 or the text </script>: the emitted token is one well-formed, script-safe literal (for appended text: one or several append statements, each literal valid UTF-8) that decodes to the original characters; the same literal at 16 positions of commands (print, call param values with and without data=all, let, if, switch case, function and directive arguments, index, loop list, ?: and ternary operands, call data map, message placeholder, css, log) is emitted as the same token; a literal of <= 3 symbolic characters spelled in template source (with the language's escapes) through the real parser and the generator; long text: a padding that places a 2-, 3- or 4-byte character (U+00E9, U+20AC, U+2028, U+1F600) across or next to every power-of-two offset 64..1024 (thorough: ..4096) followed by a symbolic byte, at each site; structure of the generated files for 6 bundles (incl. control flow with empty branches and bodies; every else follows a closing brace) (incl. namespaces with repeated segments) x 2 formatters (every prefix of the namespace declared outermost first before the functions, one function per template under its qualified/exported name, balanced brackets outside literals, identifier-shaped variable names)",
+    "bounds_quick": "string emission at 6 sites (raw text, string literal, map literal key, css suffix, global string value, message text) with <= 2 symbolic ASCII bytes (all 128 values incl. quotes, backslash, controls, line terminators), and <= 1 byte combined with U+00E9, U+2028, U+2029, U+1F600 or the text </script>: the emitted token is one well-formed, script-safe literal (for appended text: one or several append statements, each literal valid UTF-8) that decodes to the original characters; the same literal at 16 positions of commands (print, call param values with and without data=all, let, if, switch case, function and directive arguments, index, loop list, ?: and ternary operands, call data map, message placeholder, css, log) is emitted as the same token; a literal of <= 3 symbolic characters spelled in template source (with the language's escapes) through the real parser and the generator; long text: a padding that places a 2-, 3- or 4-byte character (U+00E9, U+20AC, U+2028, U+1F600) across or next to every power-of-two offset 64..1024 (thorough: ..4096) followed by a symbolic byte, at each site; structure of the generated files for 6 bundles (incl. control flow with empty branches and bodies; every else follows a closing brace) (incl. namespaces with repeated segments) x 2 formatters (every prefix of the namespace declared outermost first before the functions, one function per template under its qualified/exported name, balanced brackets outside literals, identifier-shaped variable names); a source literal with a two-byte and with an astral character through soyjs.Write",
     "bounds_thorough": "3 symbolic bytes per site",
     "outside": "full-script syntactic validity: needs a JavaScript parser inside the solver loop, which is not available; only literal tokens and the bracket/definition structure are decided. Whole-template generation with symbolic text through the parser.",
     "assumptions": ["refJSLiteral (harness): reference decoder of ECMAScript string literal bodies"],
@@ -400,7 +400,7 @@ PROPS["C02"] = {
         Job("soyhtml", "H_programBlocks", "3,4", tier="thorough", workers=16, timeout=3000),
         Job("soyhtml", "H_program", "2,3,1", tier="thorough", workers=16, timeout=5000),
     ],
-    "bounds_quick": "template bodies generated from the command grammar (raw text, print, if/else, foreach/ifempty with isLast, let value, let content, call with data=all / data=$m / none and an optional param, switch with multi-value case/default, for-range, special characters/literal/css/log/msg) with at most 2 generated nodes (thorough: 3 and 4) up to nesting depth 2, followed by a fixed trailer printing the params, list lengths 0..2; names drawn from {a,b,i} so that lets shadow params and loop variables; data: a symbolic bool, b symbolic in {p,q}, a list and a map; a second generator profile restricted to output-redirecting blocks (text, print, let content, call with a content param, nested in each other) with at most 3 nodes, depth 2 (thorough: 4 nodes, depth 3); compiled by the real parser (without the data-reference check so that unbound names reach the renderer) and rendered by the real interpreter; compared with an independent big-step reference semantics with block scoping and call isolation",
+    "bounds_quick": "template bodies generated from the command grammar (raw text, print, if/else, foreach/ifempty with isLast, let value, let content, call with data=all / data=$m / none and an optional param, switch with multi-value case/default, for-range, special characters/literal/css/log/msg) with at most 2 generated nodes (thorough: 3 and 4) up to nesting depth 2, followed by a fixed trailer printing the params, list lengths 0..2; names drawn from {a,b,i} so that lets shadow params and loop variables; data: a symbolic bool, b symbolic in {p,q}, a list and a map; a second generator profile restricted to output-redirecting blocks (text, print, let content, call with a content param, nested in each other) with at most 3 nodes, depth 2 (thorough: 4 nodes, depth 3); compiled by the real parser (without the data-reference check so that unbound names reach the renderer) and rendered by the real interpreter; compared with an independent big-step reference semantics with block scoping and call isolation; {css $b, suffix} with a base of 0..2 symbolic bytes, an int or a boolean",
     "bounds_thorough": "3 generated nodes of the full grammar with a one-element list (about 9*10^5 paths, 12 min; all three list lengths did not finish in 50 min and are not registered); content-block profile with 4 nodes, depth 3",
     "outside": "programs beyond the size bound; recursion beyond depth 2; header params",
     "assumptions": ["refRender (c02Env in the harness) is an independent transcription of the Soy command semantics: a let or loop variable lives in the block that introduces it; a callee sees the passed data plus its params only"],
@@ -447,7 +447,7 @@ PROPS["C11"] = {
         Job("soymsg/pomsg", "H_sameID", "0..2", workers=8, timeout=600),
         Job("soymsg/pomsg", "H_distinctIDs", "1..37", workers=8, timeout=600),
     ],
-    "bounds": "11 messages (tags whose names contain - : _; one directive with different arguments; literal braces next to placeholders; text only; text + placeholders; repeated equal expressions; html tags; two expressions that differ only in parenthesisation; colliding placeholder base names; one expression printed with different directives; two link tags with different attributes) in 4 contexts (plain, inside a foreach, inside the content block of a call param, inside a called template) x 3 catalogues built with the real extraction functions (pomsg.Validate/Msgid/MsgidPlural -> newMessage -> soymsg.Parts): identity, parts reversed, message absent; data: symbolic int in [0,2] and a symbolic byte from {a,b,c,<}; pairs of messages that share an id (same text and placeholder names, different expressions) in one template; a three-message bundle (plural + two plain) loaded through the real newBundle from PO entries in 4 orders; plural message with {case 1}+{default} under catalogues with 1, 2 and 3 plural forms where the bundle's PluralCase returns an arbitrary index below the number of forms, or the English rule",
+    "bounds": "11 messages (tags whose names contain - : _; one directive with different arguments; literal braces next to placeholders; text only; text + placeholders; repeated equal expressions; html tags; two expressions that differ only in parenthesisation; colliding placeholder base names; one expression printed with different directives; two link tags with different attributes) in 4 contexts (plain, inside a foreach, inside the content block of a call param, inside a called template) x 3 catalogues built with the real extraction functions (pomsg.Validate/Msgid/MsgidPlural -> newMessage -> soymsg.Parts): identity, parts reversed, message absent; data: symbolic int in [0,2] and a symbolic byte from {a,b,c,<}; pairs of messages that share an id (same text and placeholder names, different expressions) in one template; a three-message bundle (plural + two plain) loaded through the real newBundle from PO entries in 4 orders; plural message with {case 1}+{default} under catalogues with 1, 2 and 3 plural forms where the bundle's PluralCase returns an arbitrary index below the number of forms, or the English rule; a catalogue loaded through newBundle in which every subset of {singular form, other form, plain message} is really translated and the rest repeats the source, n = 1 and 5",
     "outside": "PO text syntax and file loading (robfig/gettext/po), locale fallback (x/text/language), the xgettext-soy main wrapper (its extract function is three calls which the harness mirrors), the JavaScript backend (no JS semantics in the engine); messages outside the dictionary; soymsg.Parts runs its regexp natively on concrete text",
     "assumptions": ["the expected value of a placeholder is what the real renderer prints for a template consisting of that expression alone (the evaluator itself is checked under C01)"],
     "level_text": "Bounded symbolic model checking of the extraction -> catalogue -> render pipeline for a message dictionary with symbolic data and a symbolic plural-form index: translated output is compared with the composition of the parts' own renderings.",
